@@ -13,6 +13,15 @@ Theorem C16_visit_seq : forall N elems,
   visit_seq N elems = if (length elems =? N)%nat then Ok elems else Err.
 Proof. exact visit_seq_spec. Qed.
 
+(* the resizable heap containers (nightly: HeapBytes, LockedBytes) decode exactly the elements /
+   bytes they are given, whatever size hint the deserialiser offers; Locked<HeapByteArray<N>> runs
+   the fixed-length loop above *)
+Theorem C16_heap_visit_seq : forall hint elems, heap_visit_seq hint elems = Ok elems.
+Proof. exact heap_visit_seq_spec. Qed.
+
+Theorem C16_heap_visit_bytes : forall v, heap_visit_bytes v = Ok v.
+Proof. exact heap_visit_bytes_spec. Qed.
+
 Theorem C16_visit_bytes : forall N v,
   visit_bytes N v = if (length v =? N)%nat then Ok v else Err.
 Proof. exact visit_bytes_spec. Qed.
